@@ -182,6 +182,12 @@ def do_pipe(case, ch, npc, io):
             except Exception as e:
                 a = None
             if a is not None:
+                try:
+                    check_placement(a, p, legs, seen, orc, sane)
+                except Exception as e:  # valid input: an exception means "not restored"
+                    orc.append(('pipe.combine-split.raises.' + io.err_class(e), str(e)[:200]))
+                a = None
+            if a is not None:
                 dense = a.to_ndarray()
                 comb = a.combine_legs(list(range(len(legs))), pipes=p)
                 cd = comb.to_ndarray()
@@ -216,6 +222,41 @@ def do_pipe(case, ch, npc, io):
     if io.phys_qflat(oc) != physp or oc.qconj != -p.qconj:
         orc.append(('pipe.outer_conj.breaks-fusion-rule', f'qconj {p.qconj} -> {oc.qconj}'))
     return {'in': inp, 'out': out, 'oracle': orc}
+
+
+def check_placement(a, p, legs, seen, orc, sane):
+    dense = a.to_ndarray()
+    comb = a.combine_legs(list(range(len(legs))), pipes=p)
+    cd = comb.to_ndarray()
+    for f, idx in seen.items():
+        if not np.array_equal(cd[f], dense[idx]):
+            orc.append(('pipe.combine.placement-differs-from-map', f'idx {idx} flat {f}'))
+            break
+    back = comb.split_legs(0)
+    if not np.array_equal(back.to_ndarray(), dense):
+        orc.append(('pipe.split-combine-not-identity', ''))
+    for l0, l1 in zip(a.legs, back.legs):
+        try:
+            l0.test_equal(l1)
+        except ValueError:
+            orc.append(('pipe.split-combine-legs-differ', ''))
+            break
+    if not sane(comb) or not sane(back):
+        orc.append(('pipe.combine-split.insane', ''))
+    # a second tensor with the pipe on the other side: contraction over the pipe = contraction over the legs
+    if any(0 in l.get_block_sizes() for l in a.legs):
+        return  # contraction of zero-size blocks is C01/C04's business (BLAS on empty arrays)
+    b = a.conj()
+    full = npc_tensordot(a, b, len(legs) + 1)
+    combb = b.combine_legs(list(range(len(legs))), pipes=p.conj())
+    via = npc_tensordot(comb, combb, 2)
+    if abs(complex(full) - complex(via)) > 1e-9 * (1 + abs(complex(full))):
+        orc.append(('pipe.contract-over-pipe-differs', f'{full} vs {via}'))
+
+
+def npc_tensordot(a, b, n):
+    from tenpy.linalg import np_conserved as npc
+    return npc.tensordot(a, b, axes=[list(range(n)), list(range(n))])
 
 
 def sane_leg(p):
